@@ -581,8 +581,8 @@ func c14Mismatch(c *Ctx, set c14Set) {
 		}
 		alloc := fmt.Sprintf("%d %d %d %s", sh.LevelQ(), sh.LevelP(), sh.BaseTwoDecomposition, c14Shape(sh.BaseTwoDecompositionVectorSize()))
 		if v == "err" {
-			c.Emit(fmt.Sprintf("evk_share %s %d %d %s %s %s %s %s %s", set.ringTok(base.lq, base.lp), keys.sk[0].LevelQ(), keys.sk[1].LevelQ(),
-				IVec(keys.s[0]), IVec(keys.s[1]), c14Shape(crpShape), Mat(c14CRPRows(params, crp.Value, true)), c14IMat(es), alloc), "err")
+			c.Emit(fmt.Sprintf("evk_share %s %d %d %d %d %s %s %s %s %s %s", set.ringTok(base.lq, base.lp), keys.sk[0].LevelQ(), keys.sk[1].LevelQ(),
+				keys.sk[0].LevelP(), keys.sk[1].LevelP(), IVec(keys.s[0]), IVec(keys.s[1]), c14Shape(crpShape), Mat(c14CRPRows(params, crp.Value, true)), c14IMat(es), alloc), "err")
 		}
 	}
 	// 5. GenShare: share above the secret key's LevelQ is rejected; the LevelP test of GenShare
@@ -601,7 +601,20 @@ func c14Mismatch(c *Ctx, set c14Set) {
 		noP.Value.P = ring.Poly{}
 		sh := evkg.AllocateShare(cfg.params())
 		crp := evkg.SampleCRP(crs, cfg.params())
-		report("genshare_sk_levelP", "GenShare", "C14-genshare-levelP-selfcompare", verdict(func() error { return evkg.GenShare(keys.sk[0], noP, crp, &sh) }))
+		v := verdict(func() error { return evkg.GenShare(keys.sk[0], noP, crp, &sh) })
+		report("genshare_sk_levelP", "GenShare", "C14-genshare-levelP-selfcompare", v)
+		if v == "err" {
+			crpShape := c14CRPShape(crp.Value)
+			var es [][]int
+			for _, k := range crpShape {
+				for j := 0; j < k; j++ {
+					es = append(es, make([]int, set.n))
+				}
+			}
+			alloc := fmt.Sprintf("%d %d %d %s", sh.LevelQ(), sh.LevelP(), sh.BaseTwoDecomposition, c14Shape(sh.BaseTwoDecompositionVectorSize()))
+			c.Emit(fmt.Sprintf("evk_share %s %d %d %d %d %s %s %s %s %s %s", set.ringTok(cfg.lq, cfg.lp), keys.sk[0].LevelQ(), noP.LevelQ(),
+				keys.sk[0].LevelP(), noP.LevelP(), IVec(keys.s[0]), IVec(keys.s[0]), c14Shape(crpShape), Mat(c14CRPRows(params, crp.Value, true)), c14IMat(es), alloc), "err")
+		}
 	}
 	// 6. relinearisation shares: AggregateShares has no error result at all
 	if set.maxQ() > 0 {
